@@ -13,7 +13,8 @@ ASSUME = c01.ASSUME[:3] + ["division truncates toward zero and the remainder has
 
 SN = G.scriptnum
 NUMS = [SN(x) for x in (0, 1, -1, 2, 3, -3, 7, 8, 16, 17, 24, 25, 63, 64, 127, 128, -128, 255, 256, -256, 32767, 65536, 2**31 - 1, -(2**31 - 1))] + \
-       [b"\x80", b"\x00", b"\x01\x00", b"\xff\xff\xff\xff\x7f", b"\x01\x00\x00\x00\x80"]
+       [b"\x80", b"\x00", b"\x01\x00", b"\xff\xff\xff\xff\x7f", b"\x01\x00\x00\x00\x80"] + \
+       [b"\x00\x00\x00\x00\x81", b"\xfe\xff\xff\xff\x80", b"\xff\xff\xff\xff\xff", b"\x00\x00\x00\x80\x00"]     # five-byte operands (results of earlier arithmetic), both signs
 STRS = [b"", b"\x00", b"\x01", b"\xff", b"\xaa\x55", b"\x0f\xf0", b"\x01\x02\x03", b"\xff\xff\xff\xff", b"\x80", b"hello world", b"\x00" * 20,
         bytes(range(64)), b"\x11" * 260, b"\x22" * 519]
 OFFS = [SN(x) for x in (0, 1, 2, 3, 4, 5, 10, 11, 12, 19, 20, 21, 64, 65, 259, 260, 261, 519, 520, 521, -1, 32767)] + [b"\x00", b"\x80", b"\x02\x00", b"\x01\x00\x00"]
@@ -75,6 +76,15 @@ def make_jobs(chk):
         for a in (1, -1, 3, -255, 127, 2**31 - 1, 2**39 - 1):
             for opn in ("LSHIFT", "RSHIFT"):
                 jobs.append(SessionJob("sh:%s:%d:%d" % (opn, cnt, a), bytes([O_[opn]]), [G.scriptnum(a), G.scriptnum(cnt)], [], "BASE", z=True, cmds=["steps"], cmp=drivers.CMP_C01))
+    # negative results of five bytes fed to the next opcode
+    for prog in ("-2147483647 2MUL 2DIV", "-2147483647 2MUL 2MUL 2DIV 2DIV", "-2147483647 2 MUL 3 MUL 6 DIV", "-2147483647 4 MUL 7 MOD", "-2147483647 2MUL 1 RSHIFT",
+                 "2147483647 2MUL -3 MUL 5 DIV", "-65536 65536 MUL 2DIV 65536 DIV", "2147483647 2147483647 ADD 2DIV", "-2147483647 -2147483647 ADD 2DIV",
+                 "-2147483647 -2147483647 ADD -1 MUL 1 LSHIFT", "2147483647 5 LSHIFT 5 RSHIFT", "-2147483647 2MUL -2147483647 2MUL DIV", "-2147483647 2MUL 3 SWAP MOD"):
+        sc = b""
+        for t in prog.split():
+            sc += bytes([O_[t]]) if t in O_ and not t.lstrip("-").isdigit() else G.minimal_push(G.scriptnum(int(t)))
+        for fl in ([], ["MINIMALDATA"]):
+            jobs.append(SessionJob("chain:%s:%d" % (prog.replace(" ", "_"), len(fl)), sc, [], fl, "BASE", z=True, cmds=["steps"], cmp=drivers.CMP_C01))
     # longer programs mixing the re-enabled opcodes with the ordinary ones
     rng = chk.rng
     for i in range(150 if quick else 20000):
